@@ -1215,6 +1215,11 @@ class FnTranslator:
         if obj in (_collections.OrderedDict, _collections.Counter, _collections.deque, dict, list, set, tuple):
             pre, es, ks, _ = self.args_pre(n)
             return pre, tup(es), (PY(kelem(ks[0])) if ks else PY(BOT))
+        if getattr(obj, '__name__', '') == 'fromkeys' and getattr(obj, '__self__', None) in (
+                dict, _collections.OrderedDict, _collections.defaultdict, _collections.Counter):
+            # dict.fromkeys(iterable[, value]): a new Python container whose keys are the iterable's elements (aliases)
+            pre, es, ks, _ = self.args_pre(n)
+            return pre, tup(es), (PY(kelem(ks[0])) if ks else PY(BOT))
         if isinstance(obj, type) and issubclass(obj, BaseException):
             pre, _, _, _ = self.args_pre(n)
             return pre, SC, SCK
@@ -1464,6 +1469,29 @@ def split_tuple_lists(fn):
                 ok = False
         if ok and 'zip' not in stores:
             plan[name] = (a, n)
+    class L(ast.NodeTransformer):
+        """`for a, b in ((x1, y1), (x2, y2)):` (the display written directly in the loop header) -> two named parallel
+        lists bound just before the loop and a `zip` of them"""
+        n = 0
+
+        def visit_For(self, node):
+            self.generic_visit(node)
+            it, tg = node.iter, node.target
+            if (isinstance(it, (ast.Tuple, ast.List)) and it.elts and isinstance(tg, (ast.Tuple, ast.List))
+                    and all(isinstance(e, ast.Tuple) and len(e.elts) == len(tg.elts) and len(tg.elts) >= 2
+                            and not any(isinstance(x, ast.Starred) for x in e.elts) for e in it.elts)
+                    and not any(isinstance(x, ast.Starred) for x in tg.elts) and 'zip' not in stores):
+                L.n += 1
+                names = ['__zl%d_%d_%d' % (node.lineno, L.n, k) for k in range(len(tg.elts))]
+                pre = [ast.copy_location(ast.Assign(targets=[ast.Name(id=nm, ctx=ast.Store())],
+                                                    value=ast.List(elts=[e.elts[k] for e in it.elts], ctx=ast.Load())), node)
+                       for k, nm in enumerate(names)]
+                node.iter = ast.copy_location(ast.Call(func=ast.Name(id='zip', ctx=ast.Load()),
+                                                       args=[ast.Name(id=nm, ctx=ast.Load()) for nm in names], keywords=[]), it)
+                return pre + [node]
+            return node
+    fn = L().visit(fn)
+    ast.fix_missing_locations(fn)
     if not plan:
         return fn
 
